@@ -237,6 +237,17 @@ func init() {
 		return nil
 	}
 	V["vNative"] = func(ex *Exec, fn *ssa.Function, args []Value) Value { return tFalse }
+	// vTerminates(label, ksteps): what follows, up to vTerminated(), must finish within ksteps*1000 interpreter steps
+	V["vTerminates"] = func(ex *Exec, fn *ssa.Function, args []Value) Value {
+		ex.termLabel = strOf(args[0])
+		ex.termLimit = ex.steps + 1000*int(args[1].(*Term).val)
+		ex.res.asserts[ex.termLabel]++
+		return nil
+	}
+	V["vTerminated"] = func(ex *Exec, fn *ssa.Function, args []Value) Value {
+		ex.termLimit = 0
+		return nil
+	}
 	V["vNow"] = func(ex *Exec, fn *ssa.Function, args []Value) Value {
 		return ex.now()
 	}
